@@ -10,6 +10,7 @@ import (
 	"os"
 	"path/filepath"
 	"strings"
+	"sync"
 	"time"
 
 	. "verif/harness/kit"
@@ -885,10 +886,77 @@ func run(args []string) error {
 		}
 		hist.Add(fmt.Sprintf("seq:max=%d", max))
 	}
+	// ---------------- concurrency: overlapping AddPeers / AddPeer calls must not pass Max
+	// (a run-time check on the implementation: no model, the interleaving is the scheduler's)
+	var conc []string
+	ntrial := 40
+	if f.Tier == "thorough" || f.Tier == "search" {
+		ntrial = 400
+	}
+	for trial := 0; trial < ntrial; trial++ {
+		max := []int{1, 2, 4, 8, 16}[trial%5]
+		k := 4 + trial%5
+		px := pex.VerifC26New(max, false)
+		pre := r.Intn(max) // some peers are there already
+		for i := 0; i < pre; i++ {
+			_ = px.AddPeer(fmt.Sprintf("30.%d.%d.1:7000", trial%250, i)) //nolint:errcheck
+		}
+		startC := make(chan struct{})
+		stopC := make(chan struct{})
+		doneC := make(chan struct{})
+		var wg sync.WaitGroup
+		maxSeen := 0
+		go func() { // sample the length while the calls are running
+			defer close(doneC)
+			for {
+				if n := len(px.VerifC26Dump()); n > maxSeen {
+					maxSeen = n
+				}
+				select {
+				case <-stopC:
+					return
+				default:
+				}
+			}
+		}()
+		for g := 0; g < k; g++ {
+			batch := make([]string, 150+r.Intn(100))
+			for i := range batch {
+				batch[i] = fmt.Sprintf("2%d.%d.%d.%d:%d", g, trial%250, i/250, 1+i%250, 6000+g)
+			}
+			single := g%3 == 2 // every third goroutine uses AddPeer one by one
+			wg.Add(1)
+			go func() {
+				defer wg.Done()
+				<-startC
+				for round := 0; round < 3; round++ {
+					if single {
+						for _, a := range batch[:20] {
+							_ = px.AddPeer(a) //nolint:errcheck
+						}
+					} else {
+						px.AddPeers(append([]string{}, batch...))
+					}
+				}
+			}()
+		}
+		close(startC)
+		wg.Wait()
+		close(stopC)
+		<-doneC
+		final := px.VerifC26Dump()
+		conc = append(conc, Tuple(fmt.Sprint(max), dumpCoq(final), fmt.Sprint(maxSeen)))
+		caseJSON["conc"] = append(caseJSON["conc"], map[string]interface{}{"max": max, "goroutines": k, "peers_before": pre, "final_len": len(final), "max_len_sampled": maxSeen,
+			"what": fmt.Sprintf("%d goroutines x 3 rounds of AddPeers(150..249 disjoint valid addresses) / AddPeer on a Pex with Max=%d and %d peers", k, max, pre)})
+		hist.Add(fmt.Sprintf("conc:max=%d:goroutines=%d:final_len=%d", max, k, len(final)))
+		o.Count(fmt.Sprintf("conc|%d|%d|%d", trial, max, k), true)
+	}
+	o.Def("cases_conc", "Z * pl * Z", conc)
+
 	o.Def("cases_start", "Z * bool * bool * list fentry * list str * list str * option str * Z * option pl", starts)
 	o.Def("cases_ops", "Z * bool * pl * list (xop * out * pl)", ops)
 
-	o.Side["rule"] = fmt.Sprintf("validateAddress on %d adversarial strings x allowLocalhost {false,true} (IPv6, leading zeros, unicode digits / spaces, several colons, port boundaries 0/1023/1024/65535/65536, signs, hex, localhost, octet and classification boundaries, NUL / invalid UTF-8) + %d generated strings (structured from boundary pools, classification boundaries, whitespace injection, one-byte mutations, random bytes); %d peer-list operation sequences (Max in {0,1,3,5}, time passing via LastSeen, rand.Shuffle replayed through rand.Seed), peer list dumped after every operation; every sequence starts a real pex.New on its own data directory (plus start-only cases cycling AllowLocalhost x Max {0,1,3,5} on files that always hold a loopback, a public and a private address), 3 of 4 unscripted ones on a generated peers.json / legacy peers.txt / empty peers.json + peers.txt (0..8 or Max..Max+3 members from a catalogue of valid, loopback, private, multicast / unspecified / broadcast, port 0/80/1023/65536, malformed, IPv6 and whitespace-padded addresses; Addr equal / different / empty; LastSeen integer, RFC3339, float, null, bool, text, overflow, fresh to two months old; trusted / incoming flags, legacy HasIncomePort, repeated member names), with DisableTrustedPeers, DefaultConnections (also with Max > 0 when the file cannot be cut; a New that refuses to start is compared too) and a CustomPeersFile (0..6 or Max-1..Max+2 address lines, comments, blanks, padding, CR; 15% with invalid lines), downloaded peer list texts are consumed (parseRemotePeerList + AddPeers) in the middle of sequences, and save() + pex.New restarts happen in the middle of sequences; about half start with a scripted scenario around a threshold constant - 9..12 IncreaseRetryTimes (MaxPeerRetryTimes 10 -1/0/+1/+2) on a trusted and an untrusted peer, both aged to expiration -10/+10/+1000 s, then clearOld (the first 8 sequences walk this systematically); a full list aged around the one-day eviction age 86400 -10/+10/+-1000 s with some peers trusted, then AddPeer; a list filled to Max-2..Max then AddPeers; peers aged around each clearOld period - and then continue randomly. Non-trivial = validateAddress reached a check beyond the syntactic ones, or any list operation; distinct by input / (list, operation)", len(adversarial), nval, seqDone)
+	o.Side["rule"] = fmt.Sprintf("validateAddress on %d adversarial strings x allowLocalhost {false,true} (IPv6, leading zeros, unicode digits / spaces, several colons, port boundaries 0/1023/1024/65535/65536, signs, hex, localhost, octet and classification boundaries, NUL / invalid UTF-8) + %d generated strings (structured from boundary pools, classification boundaries, whitespace injection, one-byte mutations, random bytes); %d peer-list operation sequences (Max in {0,1,3,5}, time passing via LastSeen, rand.Shuffle replayed through rand.Seed), peer list dumped after every operation; every sequence starts a real pex.New on its own data directory (plus start-only cases cycling AllowLocalhost x Max {0,1,3,5} on files that always hold a loopback, a public and a private address), 3 of 4 unscripted ones on a generated peers.json / legacy peers.txt / empty peers.json + peers.txt (0..8 or Max..Max+3 members from a catalogue of valid, loopback, private, multicast / unspecified / broadcast, port 0/80/1023/65536, malformed, IPv6 and whitespace-padded addresses; Addr equal / different / empty; LastSeen integer, RFC3339, float, null, bool, text, overflow, fresh to two months old; trusted / incoming flags, legacy HasIncomePort, repeated member names), with DisableTrustedPeers, DefaultConnections (also with Max > 0 when the file cannot be cut; a New that refuses to start is compared too) and a CustomPeersFile (0..6 or Max-1..Max+2 address lines, comments, blanks, padding, CR; 15% with invalid lines), downloaded peer list texts are consumed (parseRemotePeerList + AddPeers) in the middle of sequences, and save() + pex.New restarts happen in the middle of sequences; about half start with a scripted scenario around a threshold constant - 9..12 IncreaseRetryTimes (MaxPeerRetryTimes 10 -1/0/+1/+2) on a trusted and an untrusted peer, both aged to expiration -10/+10/+1000 s, then clearOld (the first 8 sequences walk this systematically); a full list aged around the one-day eviction age 86400 -10/+10/+-1000 s with some peers trusted, then AddPeer; a list filled to Max-2..Max then AddPeers; peers aged around each clearOld period - and then continue randomly. a concurrency group (run-time check, no model): 4-8 goroutines x 3 rounds of overlapping AddPeers (150-249 disjoint valid addresses each) / AddPeer on a Pex with Max in {1,2,4,8,16}, list length sampled during and checked afterwards. Non-trivial = validateAddress reached a check beyond the syntactic ones, or any list operation; distinct by input / (list, operation)", len(adversarial), nval, seqDone)
 	o.Side["distribution"] = hist.Sorted()
 	o.Side["samples"] = samples
 	o.Side["cases"] = caseJSON
